@@ -9,7 +9,11 @@ package main
 //     (the hashes are erased before the destination is written) and in
 //     actionRemoveMessagesFromMailboxUnchecked,
 //   - which functions guard the recovery mailbox name and with which comparison,
-//   - which errors Mailbox.Append exempts from the recovery insert.
+//   - which errors Mailbox.Append exempts from the recovery insert,
+//   - the control-flow skeleton (conditions of the `if`s, loops, `continue` / `break`, assignments to a
+//     parameter) of the functions the recovery path of the model transcribes statement by statement:
+//     a swallowed error that is no longer swallowed, a shortcut in an import loop, a name that is
+//     rewritten after its guard all show up there.
 // Theorems/C20.lean proves (`by decide`) that these facts are the ones the model was written for; a
 // change of the source changes the regenerated file and breaks that theorem.
 
@@ -64,6 +68,50 @@ func c20FaCalls(fd *ast.FuncDecl, want map[string]bool) []string {
 	out := make([]string, len(cs))
 	for i := range cs {
 		out[i] = cs[i].name
+	}
+	return out
+}
+
+// c20FaSkeleton: the control-flow markers of fd's body in source order.
+func c20FaSkeleton(fd *ast.FuncDecl) []string {
+	params := map[string]bool{}
+	if fd.Type.Params != nil {
+		for _, f := range fd.Type.Params.List {
+			for _, n := range f.Names {
+				params[n.Name] = true
+			}
+		}
+	}
+	type m struct {
+		pos  token.Pos
+		text string
+	}
+	var ms []m
+	ast.Inspect(fd.Body, func(n ast.Node) bool {
+		switch x := n.(type) {
+		case *ast.IfStmt:
+			ms = append(ms, m{x.Pos(), "if " + types.ExprString(x.Cond)})
+		case *ast.ForStmt:
+			ms = append(ms, m{x.Pos(), "for"})
+		case *ast.RangeStmt:
+			ms = append(ms, m{x.Pos(), "for"})
+		case *ast.BranchStmt:
+			ms = append(ms, m{x.Pos(), x.Tok.String()})
+		case *ast.AssignStmt:
+			if x.Tok == token.ASSIGN {
+				for _, l := range x.Lhs {
+					if id, ok := l.(*ast.Ident); ok && params[id.Name] {
+						ms = append(ms, m{x.Pos(), "assign " + id.Name})
+					}
+				}
+			}
+		}
+		return true
+	})
+	sort.SliceStable(ms, func(i, j int) bool { return ms[i].pos < ms[j].pos })
+	out := make([]string, len(ms))
+	for i := range ms {
+		out[i] = ms[i].text
 	}
 	return out
 }
@@ -177,6 +225,19 @@ func c20FactsAppend(c *factsCtx, outdir string) error {
 		return err
 	}
 
+	// control-flow skeletons
+	skeletonFns := []string{"State.actionCreateRecoveredMessage", "State.actionImportRecoveredMessage",
+		"State.actionCopyMessagesOutOfRecoveryMailbox", "State.actionMoveMessagesOutOfRecoveryMailbox",
+		"State.actionAddRecoveredMessagesToMailbox", "State.Delete"}
+	skeletons := map[string][]string{}
+	for _, fn := range skeletonFns {
+		fd := c20FaFindFunc(state, fn)
+		if fd == nil {
+			return fmt.Errorf("%s not found", fn)
+		}
+		skeletons[fn] = c20FaSkeleton(fd)
+	}
+
 	// guards on the recovery mailbox name
 	type guard struct{ fn, kind string }
 	var guards []guard
@@ -284,6 +345,15 @@ func c20FactsAppend(c *factsCtx, outdir string) error {
 	b.WriteString("]\n\n")
 	fmt.Fprintf(&b, "/-- `errors.Is(err, X)` exemptions of Mailbox.Append before the recovery insert -/\ndef appendExemptErrors : List String := %s\n\n", c20FaStrList(exempt))
 	fmt.Fprintf(&b, "/-- functions of internal/backend with an `if` on the recovery mailbox's remote or internal ID (connector-side protection) -/\ndef backendRecoveryGuards : List String := %s\n\n", c20FaStrList(backendGuards))
+	b.WriteString("/-- control-flow skeleton (if-conditions, loops, continue/break, assignments to a parameter) of the functions of the recovery path, in source order -/\ndef controlSkeleton : List (String × List String) := [\n")
+	for i, fn := range skeletonFns {
+		sep := ","
+		if i == len(skeletonFns)-1 {
+			sep = ""
+		}
+		fmt.Fprintf(&b, "  (%s, %s)%s\n", strconv.Quote(fn), c20FaStrList(skeletons[fn]), sep)
+	}
+	b.WriteString("]\n\n")
 	b.WriteString("end Gluon.Facts.Append\n")
 	return os.WriteFile(filepath.Join(outdir, "Append.lean"), []byte(b.String()), 0o644)
 }
